@@ -15,6 +15,7 @@ from fractions import Fraction
 from typing import Dict, List, Optional, Tuple
 
 from .index import FuncInfo, func_own_nodes, own_nodes
+from .index import aug_value
 from . import cfg as _cfg
 
 
@@ -65,7 +66,7 @@ def all_defs(fn: FuncInfo) -> Dict[str, List[ast.AST]]:
         elif isinstance(n, ast.AnnAssign) and n.value is not None:
             bind(n.target, n.value)
         elif isinstance(n, ast.AugAssign):
-            bind(n.target, None)
+            bind(n.target, aug_value(n))
         elif isinstance(n, (ast.For, ast.AsyncFor)):
             bind(n.target, None)
         elif isinstance(n, ast.comprehension):
